@@ -137,6 +137,12 @@ class B:
         if fee is None:
             fee = self.rng.choice([1000, 2000, 5000, 10000, 20000, 50000])
         seqs = seqs or [SEQ_FINAL] * len(ins)
+        # two definitions with the same content would be the same transaction (same txid): make the fee differ
+        if not hasattr(self, "_seen"):
+            self._seen = set()
+        while (tuple(ins), tuple(seqs), nout, fee, ver, lock, pad, sigops, bad) in self._seen:
+            fee += 1
+        self._seen.add((tuple(ins), tuple(seqs), nout, fee, ver, lock, pad, sigops, bad))
         istr = ",".join("%s:%d:%s%s" % (s, n, q, "!" if (bad and i == 0) else "") for i, ((s, n), q) in enumerate(zip(ins, seqs)))
         self.ops.append("tx %s %d %s %d %d %s %d%s" % (name, ver, lock, fee, pad, istr, nout, (" %d" % sigops) if sigops else ""))
         self.defs[name] = (list(ins), nout)
@@ -533,6 +539,40 @@ def sc_random(rng):
     return "random", b.line()
 
 
+def sc_expiry(rng):
+    """a parent older than its descendants: Expire (directly, or through LimitMempoolSize with -mempoolexpiry=1) with a cutoff
+    between their entry times must take the younger descendants along"""
+    natural = rng.random() < 0.5
+    b = B(rng, "expiry=1" if natural else None)
+    b.mine()
+    fanout(b, 6)
+    outs = pick_conf(b, 4)
+    p = b.tx([outs[0]], 2, fee=5000)
+    b.atmp(p)
+    other_old = b.tx([outs[1]], 1, fee=4000)
+    b.atmp(other_old)
+    t1 = rng.choice([600, 1800, 3000])
+    b.now += t1
+    b.op("time %d" % b.now)
+    c = b.tx([(p, 0)], 1, fee=3000)
+    b.atmp(c)
+    young = b.tx([outs[2]], 1, fee=3000)
+    b.atmp(young)
+    if rng.random() < 0.5:
+        g = b.tx([(c, 0), (p, 1)], 1, fee=2000)
+        b.atmp(g)
+    if natural:
+        # now - 3600 falls between the two entry times
+        b.now = 1 + 3600 + rng.choice([1, t1 // 2, t1 - 1, t1, t1 + 1])
+        b.op("time %d" % b.now)
+        t = b.tx([outs[3]], 1, fee=6000)
+        b.atmp(t)
+    else:
+        b.op("expire %d" % rng.choice([1, t1 // 2, t1 - 1, t1, t1 + 1]))
+    b.op("template 4000000 8000 1 400")
+    return "expiry", b.line()
+
+
 def sc_package(rng):
     """package submissions (child with its unconfirmed parents): a low-fee parent paid for by the child, two parents, a parent
     already in the pool, a package replacing pool entries, packages that are refused (not child-with-parents, conflicting)"""
@@ -590,11 +630,11 @@ def sc_package(rng):
     return "package", b.line()
 
 
-C22_CLASSES = [sc_maturity, sc_resurrect, sc_conflict, sc_locks, sc_chain, sc_random, sc_package]
+C22_CLASSES = [sc_maturity, sc_resurrect, sc_conflict, sc_locks, sc_chain, sc_random, sc_package, sc_expiry]
 
 
 def gen_c22(rng, tier):
-    n = 13 if tier == "quick" else 260
+    n = 12 if tier == "quick" else 260
     cases = []
     for f in C22_CLASSES:
         for _ in range(n):
